@@ -118,10 +118,12 @@ class PolyAFixer:
             exon = read_exons[i]
             if exon[0] >= internal_polyt_pos:
                 break
-            len_to_polyt = exon[1] - internal_polyt_pos
+            # the polyT position is the base before the last base of the head (the polyA position is the base before
+            # the first base of the tail): the exon ends two bases further from it than the mirror image would
+            len_to_polyt = exon[1] - internal_polyt_pos - 2
             if len_to_polyt <= 0 or \
                     (len_to_polyt <= self.params.max_fake_terminal_exon_len and
-                    2 * len_to_polyt < internal_polyt_pos - exon[0]):
+                    2 * len_to_polyt < internal_polyt_pos + 2 - exon[0]):
                 # more than 2/3 of the exon is polyT
                 polya_exon_count += 1
 
